@@ -507,6 +507,11 @@ struct Env {
 }
 
 pub struct Sim {
+    /// faithful mode (default): an iteration runs only if the real `poll` would return (pending event, or an expired
+    /// back-off deadline with a poll timeout set); otherwise the accept thread is blocked and nothing happens.
+    /// With `false` every iteration is forced by a bare wake of the poller.
+    pub faithful: bool,
+    pub blocked_iterations: usize,
     st: Stepped,
     env: Rc<RefCell<Env>>,
     pub exited: bool,
@@ -1013,6 +1018,8 @@ impl Sim {
         let st = Stepped::new(poll, wq, sockets, handles, srv)?;
         INJECT.with(|q| q.borrow_mut().clear());
         Ok(Sim {
+            faithful: true,
+            blocked_iterations: 0,
             st,
             env: Rc::new(RefCell::new(env)),
             exited: false,
@@ -1042,6 +1049,25 @@ impl Sim {
     fn iterate_opt(&mut self, anchored: Vec<(String, usize, Act)>, bare_wake: bool) -> usize {
         if self.exited || self.panicked.is_some() {
             return 0;
+        }
+        let mut bare_wake = bare_wake;
+        if self.faithful && bare_wake {
+            let pending = self.st.has_pending_events();
+            let snap = self.st.snapshot(self.env.borrow().cfg.workers);
+            let timer_due = snap.timeout_ms >= 0 && snap.sock_expired.iter().any(|x| *x);
+            if pending {
+                bare_wake = false; // the real poll returns by itself
+            } else if !timer_due {
+                // the accept thread would stay blocked in poll: nothing happens; anchored actions still take place
+                self.blocked_iterations += 1;
+                let mut e = self.env.borrow_mut();
+                let n = anchored.len();
+                for (_, _, a) in anchored.iter() {
+                    e.apply(a);
+                }
+                return n;
+            }
+            // timer_due: the poll timeout has elapsed in virtual time; the bare wake stands in for the time-out
         }
         {
             let mut e = self.env.borrow_mut();
